@@ -21,7 +21,9 @@ RULE = ('Hypothesis **kern scores organised in measures (see C07) x EVERY range 
         'the excerpt corresponds to the k-th note cell of the range (C07) and its governing (clef, key signature, time '
         'signature, meter symbol) must be equal in both; (4) the eKern / bEkern excerpts are well-formed, carry the encoding\'s '
         'header and re-import; (5) an Exporter object that has exported other documents before gives the same excerpt as '
-        'dumps.  An evaluation is one (document, a, b); non-trivial when '
+        'dumps.  Besides the generated scores, the repository\'s own sample scores (test/resource_dir, files up to 30 kB that import '
+        'without errors and whose full export the validator accepts) are excerpted over drawn ranges, **kern spines named by type or '
+        'by id: clauses (1)-(3).  An evaluation is one (document, a, b); non-trivial when '
         'a >= 2 (a preamble had to be reconstructed) and the range contains a note.')
 ASSUMPTIONS = ['kv/humdrum.py implements the Humdrum syntax rules named in the property (header first, cell count follows the '
                'spine operators, every spine terminated)', 'measure numbering as in C07',
@@ -33,17 +35,22 @@ PROFILES = {
     'in-split': dict(rejoin_before_bar=False),
     'non-kern': dict(others=True),
     'early-end': dict(partial_term=True, max_spines=3),
+    # other spines stand between / beside the **kern spines and are projected away (spine_types=['**kern']): the excerpt "of
+    # the **kern spines" of a piano score with dynamics, of a song with lyrics
+    'projected': dict(others=True, sig_changes=True),
+    'projected-in-split': dict(others=True, rejoin_before_bar=False),
 }
 
 
 @st.composite
 def cases(draw, prof):
     doc = draw(D.measure_documents(D.mprofile(**PROFILES[prof])))
-    if prof in ('core', 'sig-change', 'in-split', 'non-kern') and draw(st.integers(0, 3)) == 0:
+    if prof in ('core', 'sig-change', 'in-split', 'non-kern', 'projected', 'projected-in-split') and draw(st.integers(0, 3)) == 0:
         doc = draw(D.with_late_signatures(doc))  # one spine states its first clef / key / meter after some notes or rests
     if draw(st.integers(0, 2)) == 0:
         doc = draw(D.with_global_comments(doc))  # '!!' lines between the rows, half of them directly after a barline
-    return {'doc': doc, 'prof': prof}
+    # the **kern spines can be named by type or by their ids
+    return {'doc': doc, 'prof': prof, 'by_ids': prof.startswith('projected') and draw(st.booleans())}
 
 
 _PRIMERS = []
@@ -69,6 +76,8 @@ def check(case):
     a_ = S.analyze(doc)
     mixed = any(t != '**kern' for t in doc['types'])
     kw = {} if prof == 'non-kern' else {'spine_types': ['**kern']}
+    if case.get('by_ids'):
+        kw = {'spine_ids': [k for k, t in enumerate(doc['types']) if t == '**kern']}
     B, label = MS.choose_numbering(doc, kdoc)
     M = len(B)
     src_text = K.dumps(kdoc, **kw)  # normalised source, same projection as the excerpts
@@ -176,6 +185,63 @@ def check(case):
     return r
 
 
+def check_real(case):
+    """a sample score of the repository: the excerpts of its **kern spines (named by type or by id) pass the same validator,
+    re-import, and give every note cell of the range the same governing signatures as the whole export"""
+    from .. import realscores as RS
+    try:
+        kdoc, errs = kp.load(RS.path(case['real']))
+    except Exception:  # noqa
+        return Result(classes=['real-score-not-importable'])
+    if errs:
+        return Result(classes=['real-score-with-import-errors'])
+    types = kp.spine_types(kdoc)
+    kw = {'spine_types': ['**kern']}
+    if case.get('by_ids'):
+        kw = {'spine_ids': [k for k, t in enumerate(types) if t == '**kern']}
+    if '**kern' not in types:
+        return Result(classes=['real-score-without-kern'])
+    src_text = K.dumps(kdoc, **kw)
+    src_notes, err = H.track(src_text)
+    if err:
+        return Result(classes=['real-score-outside-the-validator'])  # e.g. two join groups side by side
+    lines = [l for l in src_text.split('\n') if l]
+    B = RS.measure_lines(lines)
+    M = len(kdoc.measure_start_tree_stages)
+    if len(B) != M or M == 0:
+        return Result(classes=['real-score-numbering-not-text-level'])  # invisible barlines, phantom measure ...
+    evals, keys = 0, []
+    for a, b in RS.ranges(case, M):
+        evals += 1
+        lo, hi = B[a - 1], (B[b] if b < M else len(lines) - 1)
+        exp_notes = [n for n in src_notes if lo <= n[0] <= hi]
+        ex = K.dumps(kdoc, what=f'{case["real"]}: dumps(from_measure={a}, to_measure={b})', from_measure=a, to_measure=b, **kw)
+        got_notes, err = H.track(ex)
+        if err:
+            raise Bad('excerpt-malformed', f'{case["real"]} ({K._kwrepr(kw)}), range {a}..{b} of M={M}: {err}\n--- excerpt\n{ex[:1500]}', a=a, b=b, M=M, prof='real')
+        try:
+            _, e2 = kp.loads(ex)
+        except Exception as e:  # noqa
+            raise Bad('excerpt-reimport-raised', f'{case["real"]} {a}..{b}: {e!r}')
+        if e2:
+            src_has = any(x.encoding in src_text for x in e2)
+            if not src_has:
+                raise Bad('excerpt-reimport-errors', f'{case["real"]} {a}..{b}: {[(x.line, x.encoding) for x in e2][:4]}')
+        if [n[2] for n in got_notes] != [n[2] for n in exp_notes]:
+            raise Bad('excerpt-notes', f'{case["real"]} {a}..{b}: the excerpt has {len(got_notes)} note cells, the range {len(exp_notes)}; first difference '
+                                       f'{next(((x[2], y[2]) for x, y in zip(got_notes, exp_notes) if x[2] != y[2]), None)}')
+        for g, e in zip(got_notes, exp_notes):
+            if g[3] != e[3]:
+                raise Bad('signature-differs', f'{case["real"]} range {a}..{b}: note {g[2]!r} is governed by {g[3]} in the excerpt and by {e[3]} in the whole export\n--- excerpt\n{ex[:1200]}',
+                          a=a, b=b, M=M, prof='real')
+        if a >= 2 and exp_notes:
+            keys.append([case['real'], a, b, case.get('by_ids')])
+    r = Result(nontrivial=bool(keys), evals=evals, classes=['real-score', 'real-score-by-ids' if case.get('by_ids') else 'real-score-by-type'],
+               sample={'file': case['real'], 'ranges': RS.ranges(case, M)[:4]})
+    r.keys = keys
+    return r
+
+
 def _is_sig(c):
     return c.startswith('*clef') or c.startswith('*k[') or c == '*kcancel' or c.startswith('*met(') or \
         (c.startswith('*M') and len(c) > 2 and (c[2].isdigit() or c[2] == '('))
@@ -241,9 +307,15 @@ FINDINGS = {'KF-C08-SPLIT': f_split, 'KF-C08-SIGKINDS': f_sigkinds, 'KF-C08-NONK
 def run(ctx):
     n = 24 if ctx.quick else 800
     ctx.run_hypothesis(cases('core'), check, max_examples=n, label='core')
-    for i, prof in enumerate(('sig-change', 'in-split', 'non-kern', 'early-end')):
+    from .. import realscores as RS
+    rc = RS.cases()
+    if rc is not None:
+        ctx.run_hypothesis(rc, check_real, max_examples=max(3, (24 if ctx.quick else 480) // ctx.nshards), salt=9, label='real-scores')
+    for i, prof in enumerate(('sig-change', 'in-split', 'non-kern', 'early-end', 'projected', 'projected-in-split')):
         ctx.run_hypothesis(cases(prof), check, max_examples=max(12, n // 3), salt=i + 1, label=prof)
 
 
 def replay(case):
+    if 'real' in case:
+        return check_real(case)
     return check(case)
